@@ -66,11 +66,14 @@ def _work(spec):
 
 
 def write_replay(prop, spec, v):
-    os.makedirs(os.path.join(HERE, 'replays'), exist_ok=True)
+    # artefacts of a run against a scratch copy of the library (VERIF_REPO: mutant / seeded-change runs) go next to that run's evidence, not into
+    # /verif/replays: they describe another tree and diverge when replayed against /repo
+    rdir = os.path.join(os.environ['VERIF_EVIDENCE_DIR'], 'replays') if (os.environ.get('VERIF_REPO') and os.environ.get('VERIF_EVIDENCE_DIR')) else os.path.join(HERE, 'replays')
+    os.makedirs(rdir, exist_ok=True)
     body = dict(property=prop, engine='vsched-1', family=spec['family'], scenario=spec, choices=v['prefix'], points=v['points'],
                 clause=v['clause'], detail=v['detail'], tags=v['tags'], level=v['level'], sched=v.get('sched'), trace=v.get('trace'))
     h = hashlib.blake2b(json.dumps([spec, v['prefix'], v['clause']], sort_keys=True, default=str).encode(), digest_size=6).hexdigest()
-    path = os.path.join(HERE, 'replays', f'{prop}-{h}.json')
+    path = os.path.join(rdir, f'{prop}-{h}.json')
     with open(path, 'w') as f:
         json.dump(body, f, indent=1, default=str)
     return path
